@@ -327,7 +327,7 @@ fn run_units(allowed: &[u16], units: &[(Vec<u8>, bool)], cuts: u64) -> (Vec<Stri
         let last = i + 1 == units.len();
         if last || *terminal || (cuts >> (i % 64)) & 1 == 1 {
             for el in p.parse_bytes(&buf) {
-                out.push(format!("{:?}", el));
+                out.push(obs::render(&el));
             }
             buf.clear();
         }
@@ -374,7 +374,7 @@ pub fn oracle(case: &Case) -> Outcome {
         let start = streams[c.parser].len();
         streams[c.parser].extend(fused);
         let _ = start;
-        base_results[c.parser].extend(res.iter().map(|e| format!("{:?}", e)));
+        base_results[c.parser].extend(res.iter().map(obs::render));
     }
     // (3) partition independence per parser
     let mut max_parts = 0usize;
@@ -424,7 +424,7 @@ pub fn oracle(case: &Case) -> Outcome {
         let mut fresh = obs::new_parser(&case.allowed_of(pi));
         let mut out = vec![];
         for c in case.calls.iter().filter(|c| c.parser == pi) {
-            out.extend(fresh.parse_bytes(&c.buf()).iter().map(|e| format!("{:?}", e)));
+            out.extend(fresh.parse_bytes(&c.buf()).iter().map(obs::render));
         }
         if out != base_results[pi] || obs::cache_fingerprint(&fresh) != obs::cache_fingerprint(&parsers[pi]) {
             return Outcome::violation(format!(
